@@ -4,7 +4,7 @@
      Acq(t) / Rel(t)        t holds / gives up the mutex (lock returned / about to unlock)
      WaitCall(t, timed, dl) t, holding the mutex, enters wait: atomically
                             releases the mutex and joins the waiters
-     Signal(t) / Bcast(t)   issued by t while holding the mutex
+     Signal(t) / Bcast(t)   issued by t, normally while holding the mutex
      WaitRet(t, ok, now)    t returned from wait: holds the mutex again
    Internal steps: a signal picks one current waiter (any: the property does
    not fix the order), a broadcast all; a timed waiter whose deadline passed
@@ -29,13 +29,14 @@ WaitCall(t, timed, d) ==
     /\ waiting' = waiting \cup {t}
     /\ dl' = [dl EXCEPT ![t] = IF timed THEN d ELSE NoDl]
     /\ UNCHANGED <<woken, expired>>
-Signal(t) ==
-    /\ holder = t
+\* locked = the caller holds the mutex (the usual discipline); a signal may also be sent without it
+Signal(t, locked) ==
+    /\ (locked => holder = t)
     /\ IF waiting = {} THEN UNCHANGED <<waiting, woken>>
        ELSE \E w \in waiting : waiting' = waiting \ {w} /\ woken' = woken \cup {w}
     /\ UNCHANGED <<holder, expired, dl>>
-Bcast(t) ==
-    /\ holder = t
+Bcast(t, locked) ==
+    /\ (locked => holder = t)
     /\ woken' = woken \cup waiting /\ waiting' = {}
     /\ UNCHANGED <<holder, expired, dl>>
 \* internal: time-out of a timed waiter; "now" is only known at its return, so
@@ -50,7 +51,7 @@ WaitRet(t, ok, now) ==
     /\ UNCHANGED <<waiting, dl>>
 
 HNext == \E t \in Threads :
-           \/ Acq(t) \/ Rel(t) \/ Signal(t) \/ Bcast(t) \/ Expire(t)
+           \/ Acq(t) \/ Rel(t) \/ (\E lk \in BOOLEAN : Signal(t, lk) \/ Bcast(t, lk)) \/ Expire(t)
            \/ \E timed \in BOOLEAN, d \in 0..2 : WaitCall(t, timed, d)
            \/ \E ok \in BOOLEAN, now \in 0..3 : WaitRet(t, ok, now)
 HSpec == HInit /\ [][HNext]_hvars
